@@ -19,6 +19,55 @@ CHECKS = {
         design="5/C06",
         note="Trusted: TLC, the harness replay/recorder code, cffi. Bounded: model constants (2-3 handlers, sizes "
              "3/6/12, MaxCounter 1-2); histories are seeded samples, not all histories."),
+    "C05": dict(
+        technique="TLA+ model checking (TLC) of Lifting.tla + spec->code replay of every model evaluation into the real lifting classes",
+        text="Lifting.tla transcribes Lifting.insert/reset and the three get_active_identifier on integer rates; TLC evaluates "
+             "flow balance, never-non-negative and reset clauses for every zero-sum table (length <= 4) and explores the object "
+             "as a state machine. Every (scheme, table, active unit, draw) of the model, including interval end points, is then "
+             "executed on the real classes (one long-lived object per scheme reset between tables, and a fresh object), and the "
+             "selected unit and the ranges of the uniform draws must equal the model's.",
+        design="5/C05",
+        note="Trusted: TLC, harness/drive_lifting.py (scripted random.uniform). Integer tables only: near-cancelling float tables "
+             "are outside the lattice. Draws: one representative per unit piece of each interval + end points."),
+    "C14": dict(
+        technique="TLA+ model checking (TLC) of Time.tla on a dyadic lattice + table replay into base.time.Time + trace validation "
+                  "of boundary doubles on order-preserving float keys (TraceTime.tla, F64.tla)",
+        text="Time.tla defines add/sub/from_float/comparisons in exact fixed point; TLC checks normalisation, exactness, monotony, "
+             "rational order and infinity clauses for all lattice values and the run clock as a state machine. All model "
+             "evaluations are replayed into the real Time with quotient offsets 0, 2^31, 2^52-16 (exact equality). Boundary and "
+             "random doubles are evaluated on the real class, logged as 64-bit order keys and measured residuals, and judged "
+             "clause by clause by TLC.",
+        design="5/C14",
+        note="Exhaustive only on the lattice (denominator 8, 5 quotients per offset); arbitrary doubles are sampled at boundary "
+             "values. Trusted: harness/f64.py, fractions.Fraction for residuals."),
+    "C15": dict(
+        technique="TLA+ model checking (TLC) of Periodic.tla on a dyadic lattice + table replay into the cubic/cuboid periodic "
+                  "boundary classes + trace validation of boundary doubles on float keys (TracePeriodic.tla)",
+        text="Periodic.tla defines wrapping and minimum-image separation as integer modular arithmetic with in-box, congruence, "
+             "uniqueness, idempotence and half-box clauses, and a point moving through the box as a state machine. All model "
+             "evaluations are replayed into HypercubicPeriodicBoundaries and HypercuboidPeriodicBoundaries; boundary doubles "
+             "(tiny negatives, 0, L, k*L +- ulp, many box lengths) for 8 box lengths are judged on keys by TLC.",
+        design="5/C15",
+        note="Exhaustive only on the 1/8 lattice; floats are probed. One known finding (tiny negative positions map to L)."),
+    "C16": dict(
+        technique="TLA+ model checking (TLC) of Cells.tla + relation-table replay into CuboidCells/CuboidPeriodicCells + trace "
+                  "validation of float extents and position_to_cell on float keys (TraceCells.tla)",
+        text="Cells.tla defines neighbour/nearby/relative/translate as index arithmetic modulo the cells per side with torus "
+             "clauses and a hopping unit as a state machine; every relation of 12 grids x 3 layer counts is replayed into the "
+             "real classes for cubic and non-cubic boxes. Recorded cell extents and position_to_cell results at the extreme "
+             "floats next to every cell and box boundary are judged (abut, cover, contain, unique) on keys by TLC.",
+        design="5/C16",
+        note="Relations exhaustive for the listed grids; float extents probed for fixed + seeded (L, n) pairs. One known finding "
+             "(top floats of the box uncovered for some grids)."),
+    "C18": dict(
+        technique="TLA+ model checking (TLC) of Walker.tla + replay of every rate vector into the real Walker (all rows x draws)",
+        text="Walker.tla transcribes the alias-table construction (LIFO pops) on integer rates; TLC checks row mass, per-cell "
+             "probability = rate/total, zero-rate cells, and the construction as a state machine. For every vector the real "
+             "Walker is driven through every table row and every interior second draw (three magnitudes); per-cell mass, "
+             "total_rate and zero-rate selections must equal the model's.",
+        design="5/C18",
+        note="Alias table part exhaustive for vectors of length <= 4/5 over 0..3; the cell-veto handler part (offset mapping, "
+             "stored bound) is judged on recorded runs. Known finding: zero-rate cell selected when the draw is exactly 0.0."),
 }
 
 NOT_APPLICABLE = {
